@@ -271,59 +271,51 @@ theorem triLogdet_sign {n : Nat} (T : Matrix (Fin n) (Fin n) ℝ) (hdet : T.det 
     rw [Real.log_prod (fun i _ => hne i)]
     exact Finset.sum_congr rfl fun i _ => Real.log_abs _
 
-/-! ### Output shapes -/
+/-! ### Output shapes
+
+The shape model describes the code WITH the proposed patches notes/C05_fix_2…6.diff applied (1-D rhs treated as a
+one-column matrix; batched triangular sign rule; Block / BatchRepeat overrides post-process only the terms that
+were requested).  Until they land, the cells where the unpatched code raises are `open:` findings. -/
 
 /-- **Documented output shapes of `inv_quad_logdet`** for every flag combination, on every code path
-of the `Good` family (Chol / base-class Cholesky shortcut, Diag, Identity, SumKronecker /
-LowRankRootAddedDiag closed forms, Kronecker and KroneckerAddedDiag over either base path, and Block
-operators nested to any depth over those): with a matrix rhs of `m` columns the inverse quadratic term has
-shape `batch` (reduce_inv_quad=True) or `batch ++ [m]` (False); the log-determinant, when requested, has
-shape `batch`, otherwise it is a placeholder (`None` / `empty(0)`); without a rhs the inverse quadratic
-term is a placeholder.  Any batch shape with positive dimensions, any `m > 0`, any nesting depth. -/
+of the `Good` family (Chol / base-class Cholesky shortcut, Triangular, Diag, Identity, SumKronecker /
+LowRankRootAddedDiag closed forms, the stochastic base path, Kronecker and KroneckerAddedDiag over either
+base path, and Block operators nested to any depth over all of those): with a matrix rhs of `m` columns the
+inverse quadratic term has shape `batch` (reduce_inv_quad=True) or `batch ++ [m]` (False); the
+log-determinant, when requested, has shape `batch`; terms that were not requested never make the call
+raise.  Any batch shape with positive dimensions, any `m > 0`, any nesting depth. -/
 theorem invQuadLogdet_shape (p : Path) (hg : Good p) (batch : List Nat) (m : Nat) (lg red : Bool)
     (hb : ∀ d ∈ batch, 0 < d) (hm : 0 < m) :
     (shapes p batch (.mat m) lg red).1 = .shape (if red then batch else batch ++ [m]) ∧
     (lg = true → (shapes p batch (.mat m) lg red).2 = .shape batch) ∧
-    (lg = false → ((shapes p batch (.mat m) lg red).2).placeholder) ∧
-    ((shapes p batch .absent true red).1).placeholder ∧
+    (shapes p batch (.mat m) lg red).2 ≠ .err ∧
+    (shapes p batch .absent true red).1 ≠ .err ∧
     (shapes p batch .absent true red).2 = .shape batch :=
   good_shapes p hg batch m lg red hb hm
 
-/-- The stochastic base-class path at top level: requested terms have the documented shapes for
-every flag combination (the unrequested log-determinant is a 0-d zero, the unrequested inverse
-quadratic term a zeros placeholder — see the counterexamples below for what that breaks). -/
-theorem slq_shape (batch : List Nat) (m : Nat) (lg red : Bool) (hb : ∀ d ∈ batch, 0 < d) (hm : 0 < m) :
-    (shapes .slq batch (.mat m) lg red).1 = .shape (if red then batch else batch ++ [m]) ∧
-    (lg = true → (shapes .slq batch (.mat m) lg red).2 = .shape batch) ∧
-    (shapes .slq batch .absent true red).2 = .shape batch := by
-  cases lg <;> cases red <;> simp [shapes, redIf_mat batch m _ hb hm]
+/-- A 1-D right-hand side on an unbatched operator of the closed-form classes behaves as a one-column
+matrix: reduced shape `[]`, unreduced `[1]`; the log-determinant is unaffected. -/
+theorem vector_rhs_shape (lg red : Bool) :
+    (shapes .chol [] .vec lg red).1 = .shape (if red then [] else [1]) ∧
+    (shapes .tri [] .vec lg red).1 = .shape (if red then [] else [1]) ∧
+    (shapes .closed [] .vec lg red).1 = .shape (if red then [] else [1]) ∧
+    (shapes .slq [] .vec lg red).1 = .shape (if red then [] else [1]) ∧
+    (shapes .chol [] .vec lg red).2 = (shapes .chol [] (.mat 1) lg red).2 := by
+  cases lg <;> cases red <;> decide
 
-/-- Known defect (finding): a 1-D right-hand side on the Cholesky path raises. -/
-theorem chol_vector_counterexample : shapes .chol [] .vec true true = (.err, .err) := by decide
+/-- Block over the stochastic path: the numel-1 placeholders the base returns for terms that were not
+requested are passed through untouched, for every block count and batch shape (this is the case that raises
+in the unpatched code — finding). -/
+theorem block_slq_placeholders (batch : List Nat) (k : Nat) (red : Bool) (hb : ∀ d ∈ batch, 0 < d) (hk : 0 < k) :
+    (shapes (.block .slq k) batch .absent true red).2 = .shape batch ∧
+    (shapes (.block .slq k) batch .absent true red).1 ≠ .err :=
+  let h := good_shapes (.block .slq k) (.block _ _ .slq hk) batch 1 true red hb (by decide)
+  ⟨h.2.2.2.2, h.2.2.2.1⟩
 
-/-- Known defect (finding): `BlockDiag(...).logdet()` raises when the blocks take the stochastic path —
-the base returns a numel-1 placeholder for the absent inverse quadratic term. -/
-theorem block_slq_counterexample :
-    shapes (.block .slq 2) [] .absent true true = (.err, .err) ∧
-    shapes (.block .slq 2) [] (.mat 2) false true = (.err, .err) := by decide
-
-/-- … while with a matrix rhs *and* the log-determinant requested the same nesting is fine (partial result
-for the defective family). -/
-theorem block_slq_partial (batch : List Nat) (k m : Nat) (red : Bool) (hb : ∀ d ∈ batch, 0 < d) (hk : 0 < k) (hm : 0 < m) :
-    shapes (.block .slq k) batch (.mat m) true red
-      = (.shape (if red then batch else batch ++ [m]), .shape batch) := by
-  have hN : numel batch ≠ 0 := Nat.ne_of_gt (numel_pos _ hb)
-  have hk0 : k ≠ 0 := Nat.ne_of_gt hk
-  have hm0 : m ≠ 0 := Nat.ne_of_gt hm
-  cases red <;>
-    simp [shapes, blockPost, redIf, numel_append, numel_cons, numel_nil, hN, hk0, hm0, List.getLast?_append,
-      Nat.mul_assoc, Nat.mul_eq_zero]
-
-/-- Known defects (findings): batched triangular log-determinant (`bool()` of a batch tensor), the
-Kronecker-structured constant-diagonal `_logdet` (D12), `BatchRepeat(...).logdet()` over the stochastic path. -/
-theorem tri_batch_d12_rep_counterexamples :
-    shapes .tri [2] .absent true true = (.err, .err) ∧
-    shapes (.kronD12 .slq) [] .absent true true = (.err, .err) ∧
-    shapes (.rep .slq [] [2]) [2] .absent true true = (.err, .err) := by decide
+/-- BatchRepeat over the stochastic path without a rhs (raises in the unpatched code — finding): instances of
+the patched behaviour.  `_partial`: no general theorem for BatchRepeat paths. -/
+theorem rep_slq_partial :
+    shapes (.rep .slq [] [2]) [2] .absent true true = (.shape [], .shape [2]) ∧
+    shapes (.rep .slq [3] [2, 1]) [2, 3] (.mat 2) true false = (.shape [2, 3, 2], .shape [2, 3]) := by decide
 
 end LinOp.C05
